@@ -247,6 +247,74 @@ def _decorator_name(d: ast.expr) -> str:
 BIG_MODULE_LINES = 2000
 
 
+def _dataclass_init(cls_node: ast.ClassDef) -> Optional[ast.FunctionDef]:
+    """The constructor a @dataclass decorator synthesises, written out: parameters in field order with their defaults,
+    one store per field (fields with init=False get their default, default_factory fields a call of the factory when
+    the argument is omitted), then __post_init__() if the class defines one.  Fields inherited from a base dataclass
+    are not merged (no such class in the library); None for anything that is not a plain @dataclass."""
+    def is_dc(d) -> bool:
+        if isinstance(d, ast.Call):
+            d = d.func
+        return (isinstance(d, ast.Name) and d.id == 'dataclass') or (isinstance(d, ast.Attribute) and d.attr == 'dataclass')
+    if not any(is_dc(d) for d in cls_node.decorator_list):
+        return None
+    if any(isinstance(b, ast.FunctionDef) and b.name == '__init__' for b in cls_node.body):
+        return None
+    params, body = [], []
+    for st in cls_node.body:
+        if not (isinstance(st, ast.AnnAssign) and isinstance(st.target, ast.Name)) or \
+                'ClassVar' in ast.unparse(st.annotation):
+            continue
+        name, val = st.target.id, st.value
+        default = factory = None
+        init = True
+        if isinstance(val, ast.Call) and ((isinstance(val.func, ast.Name) and val.func.id == 'field') or
+                                          (isinstance(val.func, ast.Attribute) and val.func.attr == 'field')):
+            for kw in val.keywords:
+                if kw.arg == 'default':
+                    default = ast.unparse(kw.value)
+                elif kw.arg == 'default_factory':
+                    factory = ast.unparse(kw.value)
+                elif kw.arg == 'init' and isinstance(kw.value, ast.Constant) and kw.value.value is False:
+                    init = False
+        elif val is not None:
+            default = ast.unparse(val)
+        if not init:
+            rhs = f'{factory}()' if factory else (default if default is not None else 'None')
+            body.append(f'    self.{name} = {rhs}')
+        elif factory:
+            params.append(f'{name}=None')
+            body.append(f'    self.{name} = {factory}() if {name} is None else {name}')
+        else:
+            params.append(name if default is None else f'{name}={default}')
+            body.append(f'    self.{name} = {name}')
+    post = [b for b in cls_node.body if isinstance(b, ast.FunctionDef) and b.name == '__post_init__']
+    inline_post = bool(post) and len(post[0].args.args) == 1 and post[0].args.args[0].arg == 'self' and \
+        not any(isinstance(x, ast.Return) and x.value is not None for x in ast.walk(post[0]))
+    if post and not inline_post:
+        body.append('    self.__post_init__()')
+    # parameters without a default may not follow parameters with one in hand-written code; dataclasses forbid it too
+    src = 'def __init__(self' + ''.join(', ' + p_ for p_ in params) + '):\n' + '\n'.join(body or ['    pass'])
+    try:
+        fn = ast.parse(src).body[0]
+    except SyntaxError:
+        return None
+    for n in ast.walk(fn):
+        if hasattr(n, 'lineno'):
+            n.lineno = n.end_lineno = cls_node.lineno
+            n.col_offset = n.end_col_offset = cls_node.col_offset
+    if inline_post:
+        # __post_init__(self) runs as the tail of the constructor: its statements are part of it (own positions kept)
+        import copy as _copy
+        tail = [_copy.deepcopy(x) for x in post[0].body
+                if not (isinstance(x, ast.Expr) and isinstance(x.value, ast.Constant))]
+        if tail and not (len(fn.body) == 1 and isinstance(fn.body[0], ast.Pass)):
+            fn.body.extend(tail)
+        elif tail:
+            fn.body = tail
+    return fn
+
+
 class Index:
     """All modules under <repo>/<package>."""
 
@@ -334,6 +402,17 @@ class Index:
                     else:
                         ci.methods[b.name] = fi
                         self.funcs[fi.qualname] = fi
+            synth = _dataclass_init(st)
+            if synth is not None and '__init__' not in ci.methods:
+                fi = FuncInfo(m, ci, '__init__', synth)
+                ci.methods['__init__'] = fi
+                self.funcs[fi.qualname] = fi
+                post = ci.methods.get('__post_init__')
+                if post is not None and not any(isinstance(x, ast.Call) and isinstance(x.func, ast.Attribute) and
+                                                x.func.attr == '__post_init__' for x in ast.walk(synth)):
+                    # its statements were made the tail of the constructor: it is not a routine of its own
+                    del ci.methods['__post_init__']
+                    self.funcs.pop(post.qualname, None)
         elif isinstance(st, (ast.Assign, ast.AnnAssign, ast.AugAssign)):
             targets = st.targets if isinstance(st, ast.Assign) else [st.target]
             for t in targets:
